@@ -483,3 +483,21 @@ func BadStraightSkip(xs []int) []int {
 	}
 	return out
 }
+
+// exact(): the argument is the collection element itself, with no field updated on any path.
+func GoodExactArg(rs []Rec) {
+	for _, r := range rs {
+		save2(r)
+	}
+}
+
+func BadExactArg(rs []Rec, floor int) {
+	for _, r := range rs {
+		if r.V < floor {
+			r.V = floor
+		}
+		save2(r)
+	}
+}
+
+func save2(r Rec) { _ = r }
